@@ -421,8 +421,17 @@ func c18Forced(s *c18Sched) map[string]interface{} {
 			}
 		}
 		if st.Fatal != nil {
-			// the model says the process dies here
-			time.Sleep(2 * time.Second)
+			// the model says the process dies here; a panicking goroutine still runs its deferred
+			// functions (and their hook points) before the runtime ends the process: let it through
+			until := time.Now().Add(2 * time.Second)
+			for time.Now().Before(until) {
+				for n := range rel {
+					if gid, ok := names[n]; ok {
+						ctl.Release(gid)
+					}
+				}
+				time.Sleep(time.Millisecond)
+			}
 			rig.close()
 			return fail("no-crash", fmt.Sprintf("the model says step %d (%s) is fatal (%s) but the process is still alive", k, st.Label, *st.Fatal), nil)
 		}
@@ -474,13 +483,14 @@ func c18Forced(s *c18Sched) map[string]interface{} {
 	if s.UpClosed != upClosedBefore {
 		res["upclosed_mismatch"] = fmt.Sprintf("model upClosed=%v, upstream observed closed=%v at the end of the schedule", s.UpClosed, upClosedBefore)
 	}
+	emit(map[string]interface{}{"sched": s.ID, "phase": "free"})
 	ctl.ReleaseAll()
 	if !connEnded {
 		client.Abort()
 	}
-	upClosed := sub.ClosedByGateway(T)
+	deadline := time.Now().Add(1200 * time.Millisecond)
+	upClosed := sub.ClosedByGateway(1200 * time.Millisecond)
 	left := []string{}
-	deadline := time.Now().Add(T)
 	for {
 		left = left[:0]
 		states := fed.GoroutineStates()
@@ -570,6 +580,12 @@ func c18Conn(s *c18ConnSched) map[string]interface{} {
 		mu.Unlock()
 		return nil
 	}
+	written := map[uint64]int{}
+	rig.gs.Conn.AfterWrite = func(gid uint64, p []byte) {
+		mu.Lock()
+		written[gid]++
+		mu.Unlock()
+	}
 	client, err := fed.DialWS(rig.gs.WSURL())
 	if err != nil {
 		return fail("harness", err.Error())
@@ -626,9 +642,21 @@ func c18Conn(s *c18ConnSched) map[string]interface{} {
 		mu.Lock()
 		pd := pending[gid]
 		delete(pending, gid)
+		before := written[gid]
 		mu.Unlock()
 		close(pd.rel)
-		return true
+		// the Write itself must have happened before the next step is taken
+		deadline := time.Now().Add(T)
+		for time.Now().Before(deadline) {
+			mu.Lock()
+			done := written[gid] > before
+			mu.Unlock()
+			if done {
+				return true
+			}
+			time.Sleep(200 * time.Microsecond)
+		}
+		return false
 	}
 	for k, l := range s.Labels {
 		var w int
